@@ -5,14 +5,16 @@
      root, counts, displacements and operator (SUM PROD MAX MIN BXOR); TLC evaluates it on every generated case and
      prints the expected buffers (UNDEF where MPI leaves the content undefined; untouched elements keep the fill
      value, so gaps of the v-variants and guard elements are compared too).  For barriers the driver logs simulated
-     entry / exit dates and TLC evaluates MpiColl!BarrierOk (nobody leaves before everybody entered).
+     entry / exit dates and TLC evaluates MpiColl!BarrierOk (nobody leaves before everybody entered; dates in microseconds).
      harness/mpi_coll.cpp runs the cases under smpirun with --cfg=smpi/<coll>:<algo> for *every algorithm name* that
      `smpirun --help-coll` lists at run time, over several communicator sizes, host layouts, roots and counts; Python
      only compares the printed buffers with TLC's.
   Policy (DESIGN section 4, C29): an algorithm that declines a communicator size / deployment by throwing
   std::invalid_argument("... can't be used with ...") produces no buffers: counted as `declined`, not a violation.
   Wrong buffers, a crash, an assertion, a non-zero return code or a hang (wall-clock timeout) is a violation with the
-  signature C29:<collective>:<algorithm>:<np class>:<kind>  (np class: np1 | pof2 | nonpof2).
+  signature C29:<collective>:<algorithm>:<np class>:<count class>:<kind>  (np class: np1 | pof2 | nonpof2; count class:
+  c0 = count 0 | clt = 0 < count < np | cge; kind: wrong | crash | hang).  The same refusal expressed by an error code
+  returned on every rank with untouched buffers (alltoall 2dmesh / 3dmesh ...) is counted as declined as well.
 
 Mutation evidence (tools/mutbuild.sh, quick tier): see MUTATIONS at the end of this file.
 """
@@ -198,7 +200,7 @@ def tlc_expected(ctx, cases, nchunks=4):
 
 
 def tlc_barriers(ctx, obs):
-    """obs: list of {"enter": [...ns], "leave": [...ns]}; returns list of booleans MpiColl!BarrierOk"""
+    """obs: list of {"enter": [...us], "leave": [...us]}; returns list of booleans MpiColl!BarrierOk"""
     if not obs:
         return []
     bf = os.path.join(ctx.scratch, "barriers.json")
@@ -282,6 +284,21 @@ def run_cases(ctx, tag, coll, algo, n, layout, ids, cases, timeout):
     return {"status": status, "rc": rc, "bufs": bufs, "bars": bars, "msg": msg}
 
 
+def refused_by_code(c, got):
+    """every rank got the same non-zero return code and no receive buffer was touched: an explicit refusal"""
+    if len(got) != c["np"]:
+        return None
+    codes = {got[r][0] for r in got}
+    if len(codes) != 1 or 0 in codes:
+        return None
+    for r in range(c["np"]):
+        rcode, vals, guard = got[r]
+        before = c["send"][r] if c["coll"] == "bcast" else [c["fill"]] * len(vals)
+        if not guard or list(vals) != list(before):
+            return None
+    return codes.pop()
+
+
 def compare(c, exp, got):
     """None if the buffers of case c equal TLC's expectation, else a description of the first difference"""
     for r in range(c["np"]):
@@ -301,6 +318,10 @@ def compare(c, exp, got):
     return None
 
 
+def count_class(c):
+    return "c0" if c["count"] == 0 else ("clt" if c["count"] < c["np"] else "cge")
+
+
 # ------------------------------------------------------------------------------------------- the check
 
 def run(ctx):
@@ -312,6 +333,9 @@ def run(ctx):
     table = algorithms()
     for b in BUILTIN:
         table.setdefault(b, ["builtin"])
+    only = os.environ.get("VERIF_C29_ONLY")          # debugging aid: restrict to some collectives (not used by MANIFEST)
+    if only:
+        table = {k: v for k, v in table.items() if k in only.split(",")}
     ctx.cov["algorithms"] = {k: len(v) for k, v in sorted(table.items())}
     ctx.cov["algorithm_entries"] = sum(len(v) for v in table.values())
 
@@ -415,9 +439,14 @@ def run(ctx):
                 elif (algo, n, lay, i) not in bar_ok:
                     raise vlib.InfraError("barrier dates out of the 32-bit range: %s" % bars)
                 elif not bar_ok[(algo, n, lay, i)]:
-                    kind, what = "wrong", "a rank left the barrier before another one entered: (enter, leave) ns = %s" % \
+                    kind, what = "wrong", "a rank left the barrier before another one entered: (enter, leave) us = %s" % \
                         [bars[r] for r in range(n)]
             else:
+                code = refused_by_code(c, bufs)
+                if code is not None:
+                    stats["declined"] += 1
+                    declined.setdefault("%s:%s" % (coll, algo), set()).add("np=%d/%s (error code %d)" % (n, lay, code))
+                    continue
                 diff = compare(c, exp[i], bufs)
                 if diff:
                     kind, what = "wrong", diff
@@ -428,12 +457,12 @@ def run(ctx):
                                 "rank0_expected": exp[i][0][:12], "rank0_got": list(bufs[0][1][:12])})
                 continue
             stats[kind] += 1
-            sig = "C29:%s:%s:%s:%s" % (coll, algo, np_class(n), kind)
+            sig = "C29:%s:%s:%s:%s:%s" % (coll, algo, np_class(n), count_class(c), kind)
             seen_sig[sig] = seen_sig.get(sig, 0) + 1
             if seen_sig[sig] > 1:
                 continue     # same (collective, algorithm, np class, kind): counted in `results`, reported once
             # a rejection is reported only if running the same case again fails again
-            r2 = run_cases(ctx, "re_%s_%s_%d_%d" % (coll, algo, n, i), coll, algo, n, lay, [i], cases, tmo)
+            r2 = run_cases(ctx, "re_%s_%s_%d_%d" % (coll, algo, n, i), coll, algo, n, lay, [i], cases, 4 * tmo)
             if r2["status"] == "ok":
                 again = compare(c, exp[i], r2["bufs"].get(i, {})) if coll != "barrier" else "barrier"
                 if coll == "barrier":
